@@ -143,6 +143,18 @@ func c16One(res *vlib.Result, si, enc, integ, ci, vc, life, ver, dir, tag int) {
 		cc.SessionCache, cc.SessionID, cc.Command, cc.SecurityTag = cliCache, sid, 443, tg
 		sc := baseCfg(security.SecurityOptional, security.SecurityOptional, nil, []security.CryptoMethod{security.CryptoAES}, true)
 		sc.SessionCache = srvCache
+		// the resuming endpoints' own policies: when the claim session is encrypted, an
+		// endpoint that REQUIRES encryption or integrity is satisfied by it (rotated by case)
+		if enc != 2 && integ != 2 {
+			switch (si + ci + vc + life + ver + tag) % 4 {
+			case 1:
+				cc.Encryption, sc.Encryption = security.SecurityRequired, security.SecurityRequired
+			case 2:
+				cc.Integrity, sc.Integrity = security.SecurityRequired, security.SecurityRequired
+			case 3:
+				sc.Encryption, cc.Integrity = security.SecurityRequired, security.SecurityRequired
+			}
+		}
 		r := hsRun(hsOpts{ClientCfg: cc, ServerCfg: sc, App: true})
 		res.Transitions++
 		if !wantOK {
